@@ -1,0 +1,26 @@
+//go:build verif
+
+// Package verifhooks re-exports internal entry points for the external verification harness.
+// It is only compiled with the build tag "verif".
+package verifhooks
+
+import (
+	"github.com/atlassian/gostatsd"
+	"github.com/atlassian/gostatsd/internal/lexer"
+	"github.com/atlassian/gostatsd/internal/pool"
+)
+
+// LineLexer wraps an internal lexer with its own metric pool.
+type LineLexer struct {
+	l *lexer.Lexer
+}
+
+// NewLineLexer returns a lexer backed by a fresh metric pool.
+func NewLineLexer(estimatedTags int) *LineLexer {
+	return &LineLexer{l: &lexer.Lexer{MetricPool: pool.NewMetricPool(estimatedTags)}}
+}
+
+// LexLine runs the lexer on one line. The line may be modified in place.
+func (ll *LineLexer) LexLine(line []byte, namespace string) (*gostatsd.Metric, *gostatsd.Event, error) {
+	return ll.l.Run(line, namespace)
+}
